@@ -555,6 +555,16 @@ func runC04(c *fw.Ctx) {
 	for k, name := range odd {
 		mk(filepath.Join("odd", name), fmt.Sprintf(`{"odd":%d}`, k))
 	}
+	// unreadable paths with readable look-alikes next to them (an extension added or dropped, an index file inside a
+	// directory, another case, a backup suffix): ParseFile reads the path it is given or fails
+	mk("decoy/noext.json", `{"decoy":"noext.json"}`)
+	mk("decoy/dirlike/index.json", `{"decoy":"index.json"}`)
+	mk("decoy/dirlike.json", `{"decoy":"dirlike.json"}`)
+	mk("decoy/file.json.bak", `{"decoy":"bak"}`)
+	mk("decoy/file.json~", `{"decoy":"tilde"}`)
+	mk("decoy/UPPER.JSON", `{"decoy":"upper"}`)
+	mk("decoy/data.json.gz", `{"decoy":"gz"}`)
+	mk("decoy/conf.JSON", `{"decoy":"conf"}`)
 	forms := []string{
 		filepath.Join(pf, "real", "t.json"),
 		pf + "/real/./t.json", pf + "/real//t.json", pf + "//real/t.json", pf + "/real/../real/t.json", pf + "/./real/./deep/../t.json",
@@ -564,6 +574,9 @@ func runC04(c *fw.Ctx) {
 		pf + "/real/abs/t.json", pf + "/real/alias.json", pf + "/real/alias2.json", pf + "/real/dangling.json",
 		pf + "/real/t.json/", pf + "/real/t.json/.", pf + "/real/t.json/..", pf + "/real/missing/../t.json", pf + "/q/link/../missing.json",
 		pf + "/REAL/t.json", pf + "/real/T.JSON", " " + pf + "/real/t.json", pf + "/real/t.json ", pf + "/real/t.json\n",
+	}
+	for _, dn := range []string{"noext", "dirlike", "file.json", "file", "upper.json", "UPPER", "data.json", "data", "conf.json", "conf", "noext.", "noext.JSON", "missing/../noext"} {
+		forms = append(forms, pf+"/decoy/"+dn)
 	}
 	if wd, err := os.Getwd(); err == nil {
 		if rel, err := filepath.Rel(wd, filepath.Join(pf, "real", "t.json")); err == nil {
